@@ -16,6 +16,7 @@ import (
 
 // a read at.S(arr, off, bv+shift) inside a quantified fact
 type qread struct {
+	arrID int
 	sort  *Sort
 	keys  []string
 	off   *Term
@@ -31,6 +32,7 @@ type absRead struct {
 }
 
 type qfact struct {
+	relational bool // the body reads two different array terms at the bound index (relates two heap versions or two slices)
 	reads []qread
 	bv    *Term
 	body  *Term // lo <= bv < hi => B(bv)
@@ -208,6 +210,11 @@ func (x *Exec) registerFacts(st *State, t *Term, guard *Term, depth int) {
 		}
 		x.qseen[key] = true
 		f := &qfact{bv: bv, body: body, guard: guard, sorts: indexSorts(body, bv), reads: factReads(body, bv)}
+		arrs := map[int]bool{}
+		for _, rd := range f.reads {
+			arrs[rd.arrID] = true
+		}
+		f.relational = len(arrs) >= 2
 		x.qfacts = append(x.qfacts, f)
 		if os.Getenv("GOVC_DEBUG") != "" {
 			fmt.Fprintf(os.Stderr, "DEBUG register fact#%d sorts=%v body=%s\n", body.id, f.sorts, body.StringN(300))
@@ -302,6 +309,11 @@ func (x *Exec) instantiateAbs(st *State, f *qfact, a absRead, depth int) {
 }
 
 func (x *Exec) instantiateF(st *State, f *qfact, e *Term, depth int, force bool) {
+	// the witness of a sum link only matters for facts that relate two arrays (frame-like facts: "the summaries are
+	// the same as before the call"); instantiating every fact about the object there only burns the instance budget
+	if !f.relational && mentionsSym(e, "sumw") {
+		return
+	}
 	if x.ninst >= maxInstances || e.sort != f.bv.sort || f.n >= maxPerFact {
 		if os.Getenv("GOVC_DEBUG") != "" {
 			fmt.Fprintf(os.Stderr, "DEBUG skip fact#%d at %s: ninst=%d f.n=%d\n", f.body.id, e.StringN(40), x.ninst, f.n)
@@ -335,10 +347,19 @@ func (x *Exec) instantiateF(st *State, f *qfact, e *Term, depth int, force bool)
 	}
 	inst := substTerm(f.body, map[int]*Term{f.bv.id: e})
 	x.ctx.facts = append(x.ctx.facts, Implies(f.guard, inst))
+	x.inInst++
+	isW := mentionsSym(e, "sumw")
+	if isW {
+		x.atWitness++
+	}
 	x.linkAtTerms(inst)
 	x.typeReadsIn(st, inst)
 	x.unfoldSumsIn(st, inst)
 	x.registerFacts(st, inst, f.guard, depth+1)
+	if isW {
+		x.atWitness--
+	}
+	x.inInst--
 }
 
 // typeReadsIn adds the typing facts (value ranges, and: every reference is below the allocation counter of the
@@ -672,7 +693,7 @@ func factReads(body, bv *Term) []qread {
 				}
 			}
 			if ok && !mentionsTerm(t.args[1], bv) && !mentionsTerm(t.args[0], bv) {
-				out = append(out, qread{sort: t.args[0].sort, keys: arrKeys(t.args[0]), off: t.args[1], shift: shift})
+				out = append(out, qread{arrID: t.args[0].id, sort: t.args[0].sort, keys: arrKeys(t.args[0]), off: t.args[1], shift: shift})
 			}
 		}
 		for _, a := range t.args {
